@@ -431,7 +431,7 @@ def check_p(desc, exp, sub, p, ctx, res):
     res.fail("region:display-align", "%s: %s" % (where, geo))
 
 
-MAX_PROBES = 14
+MAX_PROBES = 6
 
 
 def probe_times(exp):
@@ -460,8 +460,10 @@ def probe_times(exp):
     keep_m = min(nm, MAX_PROBES // 2)
     ms = [x for x in out if x[1] == "mid"][:keep_m]
     es = [x for x in out if x[1] != "mid"]
-    step = max(1, len(es) // (MAX_PROBES - keep_m))
-    out = ms + es[::step][:MAX_PROBES - keep_m]
+    room = MAX_PROBES - len(ms)
+    step = max(1, len(es) // room)
+    off = (len(es) + nm) % step     # which edges are kept varies with the file, deterministically
+    out = ms + es[off::step][:room]
   return out
 
 
